@@ -64,6 +64,14 @@ def contention(ctx, parts=("contend", "generic", "names", "invalid", "custom", "
     if "escaped" in parts and r.get("escaped_names") and r["escaped_names"] != [1, 1, 1, 1]:
         ctx.violation({"kind": "oracle", "oracle": "C01/C14", "clauses": ["function Build/Deploy of package .../tasks.V2 and method Build/Deploy of type V2 in package .../tasks (runtime names differ only by the escaped dot) ran %s times, each must run exactly once" % r["escaped_names"]]},
                       case={"call": "mg.Deps(tasks.V2.Build, v2.Build); mg.SerialDeps(mg.F(v2.Deploy, \"prod\"), mg.F(tasks.V2.Deploy, \"prod\"))"})
+    sp = r.get("suffix_and_empty_args") or {}
+    ctx.coverage["suffix_and_empty_args_probe"] = sp
+    if "names" in parts and sp and sp.get("suffix") != [1] * 6:
+        ctx.violation({"kind": "oracle", "oracle": "C01", "clauses": ["functions whose names differ only in a trailing f / m (NmAr/NmArm, NmPer/NmPerf, NmAs/NmAsm) ran %s times, each must run exactly once" % sp.get("suffix")]},
+                      case={"call": "mg.Deps(NmArm, NmAr); mg.SerialDeps(NmPer, NmPerf); mg.CtxDeps(ctx, NmAsm, NmAs)"})
+    if ("names" in parts or "escaped" in parts) and sp and sp.get("empty_args") != [1, 1]:
+        ctx.violation({"kind": "oracle", "oracle": "C01/C14", "clauses": ["one function requested bare, as mg.F(f) and as mg.F(f, empty...) with an empty non-nil argument list ran %s times (plain, variadic); equal (empty) argument lists are one dependency: exactly once each" % sp.get("empty_args")]},
+                      case={"call": "mg.Deps(EaPlain, mg.F(EaPlain), mg.F(EaPlain, empty...)); mg.SerialDeps(mg.F(EaVariadic, empty...), mg.F(EaVariadic), EaVariadic)"})
     ctx.coverage["wide_calls_probe"] = r.get("wide")
     if "wide" in parts and r.get("wide"):
         ctx.violation({"kind": "oracle", "oracle": "C02", "clauses": ["one call naming many dependencies: %s" % "; ".join(r["wide"][:4])]},
